@@ -19,7 +19,7 @@ fn small_stream(rng: &mut Rng, i: usize, dist: &mut Dist) -> Option<(Vec<u8>, Ve
 }
 
 pub fn gen(rng: &mut Rng, tier: &str, dist: &mut Dist) -> Vec<String> {
-    let n = if tier == "thorough" { 4000 } else { 420 };
+    let n = if tier == "thorough" { 10000 } else { 1200 };
     let mut cmds = Vec::new();
     for i in 0..n {
         if i % 4 != 3 {
